@@ -290,7 +290,9 @@ fn gen_cases(seed: u64, tier: &str) -> Vec<(Case, &'static str)> {
         }
     }
     // random larger trees: nested names, symlinks, insertion order shuffled, base-only paths
-    let comp = ["a", "b", "c", "d.e", "*", "é"];
+    // "a.b", "a-b", "a b", "a+" next to the directory "a/..": bytes below `/` right after a directory's name, where the
+    // byte order of the whole string and the component-wise order of paths disagree
+    let comp = ["a", "b", "c", "d.e", "*", "é", "a.b", "a-b", "a b", "a+", "d"];
     for _ in 0..(if thorough { 8000 } else { 1500 }) {
         let np = r.range(1, 14) as usize;
         let mut pool: BTreeSet<String> = BTreeSet::new();
